@@ -83,7 +83,7 @@ def run(prop, tier):
         for fill in fills:
             out = os.path.join(wd, "out_%d" % fill)
             env = {"ASAN_OPTIONS": C.SAN_ENV["ASAN_OPTIONS"].replace("malloc_fill_byte=190", "malloc_fill_byte=%d" % fill)}
-            C.run_driver(exe, "damage", len(specs), out, args=["--list", lst, "--timeout", "60"], env_extra=env, chunk=400)
+            C.run_driver(exe, "damage", len(specs), out, args=["--list", lst, "--timeout", "60" if q else "240", "--hardmult", "1" if q else "256"], env_extra=env, chunk=400)
             R = C.parse_out(out)
             statuses.update(R.status)
             ub.update(R.ub)
@@ -96,7 +96,12 @@ def run(prop, tier):
                 outcomes[line.split()[2] + (":" + line.split()[3] if line.split()[2] == "threw" else "")] += 1
                 if line.split()[2] == "threw" and line.split()[3] in ("non-std",):
                     viols.append(dict(prop="C16", key="non_standard_exception", detail=specs[case], case=case, spec=specs[case]))
+            budget_cases = {}
             for case, bl in R.budget:
+                budget_cases[case] = bl
+            for case, bl in R.lines.get("BUDGET", []):      # soft stops of runs that were allowed to continue (thorough)
+                budget_cases.setdefault(case, bl)
+            for case, bl in sorted(budget_cases.items()):
                 parts = bl.split()
                 which = parts[1] if len(parts) > 1 else "?"
                 sec = [x for x in parts if x.startswith("section=")]
